@@ -12,21 +12,23 @@ IM = 'pysmi/codegen/intermediate.py'
 
 # shape of the parser's IMPORTS value: module name -> list of symbol names
 WF_IMPORTS = 'forall(imports, lambda k, v: is_list(v) and forall(seq(v), lambda s: is_str(s)))'
+# module names are upper-case identifiers (grammar): in particular no module is called "class"
+NOCLASS = '"class" not in imports'
 # shape of the conversion table
 WF_TABLE = ('forall(self.convertImportv2, lambda m, t: is_dict(t) and forall(t, lambda s, l: (is_list(l) or is_tuple(l)) and '
             'forall(seq(l), lambda p: is_tuple(p) and len(p) == 2 and is_str(p[0]) and is_str(p[1]) '
-            'and p[0] != m)))')
+            'and p[0] != m and p[0] != "class")))')
 
 ST_SELF = Obj('SymtableCodeGen', _importMap=MapOf(), convertImportv2=MapOf())
 
 # the keys of the IMPORTS dict only grow; its values stay lists of strings; toDel holds (module, symbol) pairs of strings
-KEEP = ['forall(K0, lambda k, v: k in imports)', 'forall(imports, lambda k, v: is_list(v))',
+KEEP = [NOCLASS, 'forall(K0, lambda k, v: k in imports)', 'forall(imports, lambda k, v: is_list(v))',
         'forall(imports, lambda k, v: forall(seq(v), lambda s: is_str(s)))',
         'forall(seq(toDel), lambda d: is_tuple(d) and len(d) == 2 and is_str(d[0]) and is_str(d[1]) and d[0] in imports)']
 CONST = ['forall(self.constImports, lambda k: k in imports)']
 # after the merge of the constant imports a value may be the table's own tuple
 WF2 = 'forall(imports, lambda k, v: is_list(v) or is_tuple(v))'
-KEEP2 = [KEEP[0], WF2, KEEP[3]]
+KEEP2 = [KEEP[0], KEEP[1], WF2, KEEP[4]]
 
 CONTRACTS = [
     Contract(
@@ -38,15 +40,15 @@ CONTRACTS = [
         raises={}),
     Contract(
         id='symtable.genImports', file=ST, func='SymtableCodeGen.genImports', serves=['C08', 'C16', 'C12'],
-        params={'self': ST_SELF, 'imports': MapOf()}, heavy=True,
-        requires=[WF_IMPORTS, WF_TABLE], inline=['SymtableCodeGen.transOpers'],
+        params={'self': ST_SELF, 'imports': MapOf()}, heavy=True, prune_ms=250,
+        requires=[WF_IMPORTS, NOCLASS, WF_TABLE], inline=['SymtableCodeGen.transOpers'],
         loops={
             1: {'snap': {'K0': 'imports'}, 'invariant': KEEP},
             2: {'index': '_i2', 'invariant': KEEP + ['module in imports', 'module in self.convertImportv2']},
             3: {'index': '_i3', 'invariant': KEEP + ['module in imports', 'module in self.convertImportv2']},
             4: {'invariant': KEEP},
-            6: {'invariant': KEEP2 + CONST},
-            7: {'invariant': KEEP2 + CONST + ['is_tuple(symbols) and forall(seq(symbols), lambda s: is_str(s))']},
+            6: {'iter': '_mods', 'assigns': ['imports'], 'invariant': KEEP2 + CONST + ['forall(_mods, lambda m: m in imports)']},
+            7: {'invariant': KEEP2 + CONST + ['forall(_mods, lambda m: m in imports)', 'is_tuple(symbols) and forall(seq(symbols), lambda s: is_str(s))']},
         },
         ensures={
             'every_module_of_the_imports_clause_is_reported':
@@ -70,7 +72,7 @@ CONTRACTS = [
     Contract(
         id='symtable.genImports', file=ST, func='SymtableCodeGen.genImports', serves=['C08'], trusted=True,
         params={'self': ST_SELF, 'imports': MapOf()}, returns=Tup(MapOf(), TupOf(Str)),
-        requires=[WF_IMPORTS],
+        requires=[WF_IMPORTS, NOCLASS],
         assigns=['self._importMap', 'imports'],
         ensures={
             'every_module_of_the_imports_clause_is_reported':
@@ -80,4 +82,49 @@ CONTRACTS = [
         notes=['summary of the verified contract symtable.genImports (contracts/imports.py); ASSUMED on top of it: '
                'list.remove in the clean-up loop never raises ValueError (one toDel entry per occurrence of a converted '
                'symbol - a multiset argument that is not machine-checked)']),
+]
+
+# ------------------------------------------------------------------------------------------- intermediate.genImports
+IM_SELF = Obj('IntermediateCodeGen', _importMap=MapOf(), _seenSyms=SetOf(), convertImportv2=MapOf())
+# the "imports" record: besides the class member, every entry is the strictly ascending list of the distinct symbols
+# imported from that module - a function of the IMPORTS clause alone, whatever order set() iterates in (C12)
+REC_A = ('forall(outDict, lambda m, l: m == "class" or (m in imports and is_list(l) and len(l) > 0 and '
+         'forall(lambda i: implies(0 <= i and i + 1 < len(l), str_of(l[i]) < str_of(l[i + 1])))))')
+REC_B = 'forall(outDict, lambda m, l: m == "class" or forall(seq(l), lambda x: x in members(imports[m])))'
+REC_C = 'forall(outDict, lambda m, l: m == "class" or forall(seq(imports[m]), lambda x: x in members(l)))'
+L6X = ['is_dict(outDict)', 'forall(outDict, lambda m, l: m == "class" or is_list(l))', 'forall(_mods, lambda m: m in imports)']
+CONTRACTS += [
+    Contract(
+        id='intermediate.genImports', file=IM, func='IntermediateCodeGen.genImports', serves=['C12', 'C16', 'C08'],
+        params={'self': IM_SELF, 'imports': MapOf()}, heavy=True, prune_ms=250,
+        requires=[WF_IMPORTS, NOCLASS, WF_TABLE], inline=['IntermediateCodeGen.transOpers'],
+        loops={
+            1: {'snap': {'K0': 'imports'}, 'invariant': KEEP},
+            2: {'index': '_i2', 'invariant': KEEP + ['module in imports', 'module in self.convertImportv2']},
+            3: {'index': '_i3', 'invariant': KEEP + ['module in imports', 'module in self.convertImportv2']},
+            4: {'invariant': KEEP},
+            6: {'index': '_i6', 'iter': '_mods', 'assigns': ['imports'], 'invariant': KEEP2 + CONST + L6X},
+            # C12: the symbols of one module are collected in ascending order - symbols is a prefix of the sorted
+            # sequence of the distinct symbols - not in the order a set happens to yield them
+            7: {'index': '_i7', 'iter': '_syms',
+                'invariant': KEEP2 + CONST + L6X + ['module in imports', 'is_list(symbols) and len(symbols) == _i7',
+                                             'forall(seq(symbols), lambda j, s: s == _syms[j])',
+                                             'forall(lambda i: implies(0 <= i and i + 1 < len(_syms), _syms[i] < _syms[i + 1]))']},
+        },
+        ensures={
+            'every_module_of_the_imports_clause_is_reported':
+                'implies(not raised, forall(old(imports), lambda k, v: k in members(result[1])))',
+            'the_constant_base_modules_are_reported':
+                'implies(not raised, forall(self.constImports, lambda k: k in members(result[1])))',
+            'only_modules_of_the_rewritten_clause_are_reported':
+                'implies(not raised, forall(seq(result[1]), lambda m: m in imports))',
+            'reported_in_sorted_order_without_duplicates':
+                'implies(not raised, forall(lambda i: implies(0 <= i and i + 1 < len(result[1]), result[1][i] < result[1][i + 1])))',
+        },
+        assigns=['self._importMap', 'self._seenSyms', 'imports'], returns=Tup(MapOf(), TupOf(Str)),
+        raises={'ValueError': True},
+        notes=['standalone', 'inplace_extension_allowed: the IMPORTS dict of the syntax tree is in the frame of genImports',
+               'not decided: that list.remove never raises ValueError in the clean-up loop (multiset argument)',
+               'not decided: that the ascending symbol list established by the inner collection loop is what ends up in the '
+               'imports record (two statements: outDict[module] = []; outDict[module].extend(symbols)) and that no symbol is lost']),
 ]
